@@ -2,6 +2,7 @@ package cleaner
 
 import (
 	"context"
+	"github.com/PowerDNS/lightningstream/utils/verifhook"
 	"maps"
 	"slices"
 	"sync"
@@ -51,6 +52,7 @@ type Worker struct {
 // SetCommitted records the snapshot time of the last snapshots loaded
 // by instance that was subsequently incorporated in one of our own snapshots.
 func (w *Worker) SetCommitted(last map[string]time.Time) {
+	verifhook.Yield("cleaner.setcommitted.lock", "")
 	w.mu.Lock()
 	defer w.mu.Unlock()
 	maps.Copy(w.lastByInstance, last)
@@ -60,6 +62,7 @@ func (w *Worker) SetCommitted(last map[string]time.Time) {
 // by instance that was subsequently incorporated in one of our own snapshots.
 // If no snapshot was loaded for this instance, it will return a zero time.
 func (w *Worker) GetCommitted(instance string) time.Time {
+	verifhook.Yield("cleaner.getcommitted.lock", "")
 	w.mu.Lock()
 	defer w.mu.Unlock()
 	return w.lastByInstance[instance]
